@@ -21,11 +21,18 @@ REQUIRED_THEOREMS = [
     "chi_square_decomposes_datasets_unlinked",
     "chi_square_decomposes_datasets_linked",
     "residual_count_linked",
+    "residual_count_linked_members",
+    "residual_count_linked_counterexample",
+    "global_matrix_shape",
+    "full_matrix_has_row_per_data_point",
+    "residual_count_every_point",
+    "chi_square_over_result_datasets",
     "cost_eq_half_chi",
     "stats_from_objective",
     "dof_formula",
     "reduced_chi_square_formula",
     "nclp_counts_reduced",
+    "nclp_linked_at_aligned_values",
     "nclp_counts_remaining_labels",
     "nclp_full_model_product",
     "nclp_append",
@@ -81,8 +88,14 @@ RULE = (
     "(zero, around sqrt(eps), around eps*max(shape)*sigma_max, huge) and parameter values (1, below/above 1, non-negative or not). "
     "A clp-count stream builds two partially overlapping datasets (linked; unlinked; unlinked with a full model) with one zero/only "
     "constraint and/or one relation whose interval takes every placement over the end points 0.5..4.5 (closed, reversed, degenerate, "
-    "half-infinite, two-piece; thorough: all 1554, quick: 160 sampled) and compares number_of_clps of the real providers with the oracle's "
-    "label count and with the model. non-trivial = chi-square > 0 and at least one free parameter; distinct = distinct spec"
+    "half-infinite, two-piece; thorough: all 1554, quick: 160 sampled), and the same on a tolerance variant (second axis 2.125, 2.875, 4; "
+    "tolerance 0.25; linked with nearest / backward / forward, which merge different points, and unlinked; end points 2.0625 and 2.9375 "
+    "lie between a merged point's own coordinate and its aligned value, so merged points sit on both sides of every interval bound; "
+    "thorough: all 3884, quick: 200 sampled; the evidence counts own-in/aligned-out and own-out/aligned-in placements), and compares "
+    "number_of_clps of the real providers with the oracle's label count, with the total number of columns of the matrices the real code "
+    "hands to the linear solver (captured), and with the model. The Lean witness of residual_count_linked_counterexample (first dataset of a "
+    "linked group repeats a global coordinate) is run on the driver and on the real code (which must refuse it or count 4 residuals). "
+    "non-trivial = chi-square > 0 and at least one free parameter; distinct = distinct spec"
 )
 RTOL_MODEL = 1e-8
 EPS = 2.0 ** -52
@@ -679,63 +692,130 @@ def flush_any(ck, batch):
 # clp-count stream: number_of_clps on a fixed pair of partially overlapping datasets, every interval placement
 # ------------------------------------------------------------------------------------------------
 ENDPOINTS = [0.5, 1.0, 2.0, 2.5, 3.0, 4.5]
+# tolerance stream: the second dataset's axis is (2.125, 2.875, 4); with tolerance 0.25 `nearest` merges 2.125 into 2 and 2.875
+# into 3, `backward` only the first, `forward` only the second.  2.0625 lies between an aligned value and the own coordinate
+# merged into it from above, 2.9375 between an own coordinate and the aligned value it is merged into from below: for every
+# interval bound there are merged points on both sides of it.
+ENDPOINTS_TOL = [0.5, 2.0, 2.0625, 2.125, 2.5, 2.875, 2.9375, 3.0, 4.5]
+TOL_AXIS = [2.125, 2.875, 4.0]
+TOL = 0.25
 
 
-def clp_intervals():
+def clp_intervals(endpoints=ENDPOINTS, half=(1.0, 2.5, 4.5), pieces=((0.5, 1.0), (3.0, 4.5))):
     """None, every closed interval between two end points (also reversed and degenerate), half-infinite ones, one two-piece list"""
     out = [None]
-    for a in ENDPOINTS:
-        for b in ENDPOINTS:
+    for a in endpoints:
+        for b in endpoints:
             out.append([a, b])
-    for a in (1.0, 2.5, 4.5):
+    for a in half:
         out.append(["-inf", a])
         out.append([a, "inf"])
-    out.append([[0.5, 1.0], [3.0, 4.5]])
+    out.append([list(p) for p in pieces])
     return out
 
 
-def clp_base(linked, full):
+def clp_base(linked, full, method=None):
+    """two partially overlapping datasets; `method` given: the tolerance variant (second axis shifted, tolerance 0.25)"""
     ds = []
     for label, gax, mcs in (("d1", [1.0, 2.0, 3.0], [(["s1", "s2"], [[1, 0], [0, 1], [1, 1], [2, 1]]), (["s2", "s3"], [[1, 2], [0, 1], [1, 0], [1, 3]])]),
-                            ("d2", [2.0, 3.0, 4.0], [(["s2", "s3", "s4"], [[1, 0, 1], [0, 1, 1], [1, 1, 0], [2, 0, 1]])])):
+                            ("d2", [2.0, 3.0, 4.0] if method is None else list(TOL_AXIS), [(["s2", "s3", "s4"], [[1, 0, 1], [0, 1, 1], [1, 1, 0], [2, 0, 1]])])):
         ds.append({"label": label, "group": "default", "global_axis": gax, "model_axis": [0.0, 1.0, 2.0, 3.0], "dims_order": "mg",
                    "data": [[float((3 * i + 2 * j + len(label)) % 7) - 2.5 for j in range(3)] for i in range(4)], "weight": None, "scale": None,
                    "mcs": [{"labels": l, "index_dependent": False, "base": [[float(v) for v in r] for r in b], "pars": None, "scale": None} for l, b in mcs],
                    "gmcs": []})
     if full:
         ds[1]["gmcs"] = [{"labels": ["g1", "g2"], "index_dependent": False, "base": [[1.0, 0.0], [1.0, 1.0], [0.0, 2.0]], "pars": None, "scale": None}]
-    return {"groups": {"default": {"link_clp": linked, "residual_function": "variable_projection"}}, "clp_link_tolerance": 0.0,
-            "clp_link_method": "nearest", "parameters": {"p.1": 2.0}, "datasets": ds, "constraints": [], "relations": [], "penalties": [], "weights": []}
+    return {"groups": {"default": {"link_clp": linked, "residual_function": "variable_projection"}},
+            "clp_link_tolerance": 0.0 if method is None else TOL, "clp_link_method": method or "nearest", "parameters": {"p.1": 2.0},
+            "datasets": ds, "constraints": [], "relations": [], "penalties": [], "weights": []}
+
+
+def _items(ivs, coarse_c, coarse_r):
+    for ctype, ctarget in (("zero", "s2"), ("only", "s3"), ("zero", "s1")):
+        for civ in ivs:
+            if ctype == "only" and civ is None:
+                continue
+            yield {"type": ctype, "target": ctarget, "interval": civ}, None
+    for src, tgt in (("s1", "s2"), ("s3", "s4"), ("s4", "s1")):
+        for riv in ivs:
+            yield None, {"source": src, "target": tgt, "parameter": "p.1", "interval": riv}
+    # both, on a coarser grid
+    for civ in ivs[::coarse_c]:
+        for riv in ivs[::coarse_r]:
+            yield {"type": "zero", "target": "s3", "interval": civ}, {"source": "s1", "target": "s2", "parameter": "p.1", "interval": riv}
+            if civ is not None:
+                yield {"type": "only", "target": "s1", "interval": civ}, {"source": "s1", "target": "s3", "parameter": "p.1", "interval": riv}
 
 
 def clp_space():
-    """(linked, full, constraint, relation) — 2 x ... : ~ 1 500 cases"""
+    """(linked, full, method, constraint, relation), tolerance 0 — ~ 1 500 cases"""
     ivs = clp_intervals()
     for linked in (True, False):
         for full in ((False,) if linked else (False, True)):
-            for ctype, ctarget in (("zero", "s2"), ("only", "s3"), ("zero", "s1")):
-                for civ in ivs:
-                    if ctype == "only" and civ is None:
-                        continue
-                    yield linked, full, {"type": ctype, "target": ctarget, "interval": civ}, None
-            for src, tgt in (("s1", "s2"), ("s3", "s4"), ("s4", "s1")):
-                for riv in ivs:
-                    yield linked, full, None, {"source": src, "target": tgt, "parameter": "p.1", "interval": riv}
-            # both, on a coarser grid
-            for civ in ivs[::5]:
-                for riv in ivs[::3]:
-                    yield linked, full, {"type": "zero", "target": "s3", "interval": civ}, {"source": "s1", "target": "s2", "parameter": "p.1", "interval": riv}
-                    if civ is not None:
-                        yield linked, full, {"type": "only", "target": "s1", "interval": civ}, {"source": "s1", "target": "s3", "parameter": "p.1", "interval": riv}
+            for con, rel in _items(ivs, 5, 3):
+                yield linked, full, None, con, rel
 
 
-def clp_spec(linked, full, con, rel):
-    spec = clp_base(linked, full)
+def clp_space_tol():
+    """the same items on the tolerance variant: linked with each alignment method (different sets of merged points), and unlinked
+    (items evaluated at the datasets' own coordinates) — ~ 2 600 cases"""
+    ivs = clp_intervals(ENDPOINTS_TOL, half=(2.0625, 2.9375), pieces=((0.5, 2.0625), (2.9375, 4.5)))
+    for linked, method in ((True, "nearest"), (True, "backward"), (True, "forward"), (False, "nearest")):
+        for con, rel in _items(ivs, 7, 5):
+            yield linked, False, method, con, rel
+
+
+def clp_spec(linked, full, con, rel, method=None):
+    spec = clp_base(linked, full, method)
     if con:
         spec["constraints"].append(con)
     if rel:
         spec["relations"].append(rel)
     return spec
+
+
+class ColumnSpy:
+    """records, per estimation provider, the number of columns of every matrix handed to the linear solver"""
+
+    def __init__(self):
+        self.cols = {}
+
+    def __enter__(self):
+        from glotaran.optimization import estimation_provider as ep
+        self.ep = ep
+        self.orig = ep.EstimationProvider.calculate_residual
+        spy = self
+
+        def calculate_residual(this, matrix, data):
+            spy.cols.setdefault(id(this), []).append(int(np.asarray(matrix).shape[1]))
+            return spy.orig(this, matrix, data)
+        ep.EstimationProvider.calculate_residual = calculate_residual
+        return self
+
+    def __exit__(self, *a):
+        self.ep.EstimationProvider.calculate_residual = self.orig
+
+
+def clp_tags(spec):
+    """which side of the items' interval bounds the merged points lie on (tolerance variant only)"""
+    out = []
+    if spec.get("clp_link_tolerance", 0.0) <= 0 or not gen_scheme.resolve_linked(spec, "default"):
+        return out
+    from harness.props import c02 as c02h
+    axes = [d["global_axis"] for d in spec["datasets"]]
+    aligned = c02h._align(axes, spec["clp_link_tolerance"], spec["clp_link_method"])
+    if aligned is None:
+        return ["align-error"]
+    merged = [(x, v) for ax, al in zip(axes[1:], aligned[1:]) for x, v in zip(ax, al) if x != v]
+    out.append(f"merged-points={len(merged)}")
+    for item in (spec.get("constraints") or []) + (spec.get("relations") or []):
+        iv = item.get("interval")
+        if iv is None:
+            continue
+        for x, v in merged:
+            a, b = c02h._applies(iv, x), c02h._applies(iv, v)
+            out.append("merged:own-" + ("in" if a else "out") + "/aligned-" + ("in" if b else "out"))
+    return out
 
 
 def run_clp(ck, spec, batch):
@@ -746,22 +826,33 @@ def run_clp(ck, spec, batch):
         opt = Optimizer(scheme, verbose=False, raise_exception=True)
         labels, x0, _, _ = scheme.parameters.get_label_value_and_bounds_arrays(exclude_non_vary=True)
         opt._free_parameter_labels = labels
-        opt.objective_function(np.array(x0, dtype=float))
+        with ColumnSpy() as spy:
+            opt.objective_function(np.array(x0, dtype=float))
         got = [int(g.number_of_clps) for g in opt._optimization_groups]
+        solved = [sum(spy.cols.get(id(g._estimation_provider), [])) for g in opt._optimization_groups]
     except Exception as e:
         ck.violation("number-of-clps-raises", f"number_of_clps raised {type(e).__name__}: {e}", light)
         return
     want = orc.expected_clps(spec)
     ck.oracle_evals += 1
     linked = gen_scheme.resolve_linked(spec, "default")
-    ck.count(f"clp-count:{'linked' if linked else 'unlinked'}={sum(got)}")
+    tol = spec.get("clp_link_tolerance", 0.0) > 0
+    ck.count(f"clp-count:{'linked' if linked else 'unlinked'}{':tol:' + spec['clp_link_method'] if tol else ''}={sum(got)}")
+    for t in clp_tags(spec):
+        ck.count("clp-count:tol:" + t)
     ck.case(("clp", json.dumps(spec, sort_keys=True)), True)
     failed = False
+    kind = ("linked" if linked else "unlinked") + (":full-model" if any(d.get("gmcs") for d in spec["datasets"]) else "") \
+        + (":items" if spec.get("constraints") or spec.get("relations") else "") + (":tolerance" if tol and linked else "")
     if want is not None and got != want:
         failed = True
-        ck.violation("number-of-clps:" + ("linked" if linked else "unlinked") + (":full-model" if any(d.get("gmcs") for d in spec["datasets"]) else "")
-                     + (":items" if spec.get("constraints") or spec.get("relations") else ""),
+        ck.violation("number-of-clps:" + kind,
                      f"number_of_clps={sum(got)} but {sum(want)} linear coefficients remain after constraints and relations", light)
+    if got != solved:
+        # independent of any alignment / interval arithmetic of the harness: the coefficients the linear solver was asked for
+        failed = True
+        ck.violation("number-of-clps-vs-solved-columns:" + kind,
+                     f"number_of_clps per group {got} but the matrices handed to the linear solver have {solved} columns in total", light)
     batch.append({"clp": spec, "lines": gen_scheme.spec_lines(spec) + ["clps"], "got": got, "oracle_failed": failed})
 
 
@@ -776,6 +867,45 @@ def judge_clp(ck, b, ans):
         if b.get("oracle_failed"):
             d["explained"] = True
         ck.disagreements.append(d)
+
+
+# ------------------------------------------------------------------------------------------------
+# the witness of `residual_count_linked_counterexample` on the real code
+# ------------------------------------------------------------------------------------------------
+def counterexample_spec():
+    """a linked group whose first dataset repeats a global coordinate: 2 x 2 data on the axis (1, 1)"""
+    return {"groups": {"default": {"link_clp": True, "residual_function": "variable_projection"}}, "clp_link_tolerance": 0.0,
+            "clp_link_method": "nearest", "parameters": {"p.1": 2.0},
+            "datasets": [{"label": "a", "group": "default", "global_axis": [1.0, 1.0], "model_axis": [0.0, 1.0], "dims_order": "mg",
+                          "data": [[1.0, 2.0], [2.0, 4.0]], "weight": None, "scale": None,
+                          "mcs": [{"labels": ["c"], "index_dependent": False, "base": [[1.0], [1.0]], "pars": None, "scale": None}], "gmcs": []}],
+            "constraints": [], "relations": [], "penalties": [], "weights": [], "max_nfev": 1, "stream": "counterexample"}
+
+
+def replay_counterexample(ck):
+    """The model stacks only the first of two columns with the same coordinate (2 residual entries for 4 data points — the Lean
+    theorem); the hypothesis `first global axis without repeated value` of `residual_count_linked` is therefore necessary.
+    The real code must not produce a Result with that count: it refuses the input (xarray cannot align a repeated coordinate)."""
+    spec = counterexample_spec()
+    ans = core.lean_driver(PROP, gen_scheme.spec_lines(spec) + ["parts"])
+    model = ans[-1]
+    if model != "parts [[2,[]]]":
+        ck.disagreements.append({"key": "counterexample-model", "what": f"the driver answers {model!r} to the witness of "
+                                 "residual_count_linked_counterexample (expected 2 residual entries, no penalty)", "case": {"spec": spec}})
+    real = run_real(spec)
+    ck.oracle_evals += 1
+    if real["error"]:
+        ck.count("counterexample:repeated-first-coordinate:real-code-refuses:" + real["error"].split(":")[0])
+    else:
+        res = real["result"]
+        n = int(res.number_of_residuals)
+        ck.count(f"counterexample:repeated-first-coordinate:real-code-result:N={n}")
+        if n != 4:
+            ck.violation("number-of-residuals:linked:repeated-first-coordinate",
+                         f"number_of_residuals={n} for 4 data points (a linked group whose first dataset repeats a global coordinate)",
+                         {"spec": spec})
+    ck.extra["counterexample_replay"] = {"theorem": "residual_count_linked_counterexample", "model": model,
+                                         "real": real["error"] or "result"}
 
 
 # ------------------------------------------------------------------------------------------------
@@ -825,12 +955,19 @@ def run(ck):
         space = ck.rng.sample(space, 160)
     else:
         ck.extra["clp_count_stream_exhaustive"] = f"all {len(space)} placements of one constraint and/or one relation interval enumerated"
-    for i, (linked, full, con, rel) in enumerate(space):
-        run_clp(ck, clp_spec(linked, full, con, rel), batch)
-        ck.count("stream:clp-count")
+    space_tol = list(clp_space_tol())
+    if ck.quick:
+        space_tol = ck.rng.sample(space_tol, 200)
+    else:
+        ck.extra["clp_count_tolerance_stream_exhaustive"] = (
+            f"all {len(space_tol)} placements on the tolerance variant (3 alignment methods linked, 1 unlinked) enumerated")
+    for i, (linked, full, method, con, rel) in enumerate(space + space_tol):
+        run_clp(ck, clp_spec(linked, full, con, rel, method), batch)
+        ck.count("stream:clp-count" + (":tolerance" if method else ""))
         if len(batch) >= 400:
             flush_any(ck, batch)
     flush_any(ck, batch)
+    replay_counterexample(ck)
     ck.extra["term_eval_max_rel_error_vs_mpmath"] = te.max_rel
 
 
